@@ -60,7 +60,11 @@ func BytePool(r *rng.R, n int) [][]byte {
 			np := 1 + r.Intn(3)
 			var ps [][]byte
 			for i := 0; i < np; i++ {
-				ps = append(ps, fromAlphabet(r, tinyAlphabet, rng.Pick(r, pathLens)))
+				pl := rng.Pick(r, pathLens)
+				if r.Chance(1, 12) {
+					pl = rng.Pick(r, []int{95, 130, 300}) // paths longer than a whole node
+				}
+				ps = append(ps, fromAlphabet(r, tinyAlphabet, pl))
 			}
 			k := 2 + r.Intn(12)
 			for i := 0; i < k; i++ {
@@ -255,7 +259,12 @@ func alphaUniverses[K chars]() []Universe[K] {
 }
 
 func AlphaString() *Kind[string] { return alphaKind[string]("alpha/string", false) }
-func AlphaBytes() *Kind[[]byte]  { return alphaKind[[]byte]("alpha/bytes", true) }
+func AlphaBytes() *Kind[[]byte] {
+	k := alphaKind[[]byte]("alpha/bytes", true)
+	k.Shorten = func(b []byte, n int) []byte { return b[:n] }
+	k.KeyLen = func(b []byte) int { return len(b) }
+	return k
+}
 
 // SortBytes is a helper for tests of the generators themselves.
 func SortBytes(bs [][]byte) {
